@@ -185,6 +185,18 @@ def build_pool(ctx, max_len=None):
             raise RuntimeError('crafted 221 message does not decode standalone')
         d['crafted'] = True
         pool.append(d)
+    # a valid message whose body holds a COMPLETE, decodable message (as the octets of a 205YYY character field, which
+    # start on an octet boundary): the signature inside begins something that would decode if the scanner ever looked at it
+    import pipeline
+    inner = [d['bytes'] for d in pool if d.get('crafted') and len(d['bytes']) <= 250][:3]
+    for i, ib in enumerate(inner):
+        b = pipeline.frame_message([205000 + len(ib)], 1, False, 33, ib)
+        d = describe(b, 'crafted-nested-%d' % i)
+        if d is None:
+            raise RuntimeError('nested crafted message does not decode standalone')
+        d['crafted'] = True
+        d['nested'] = True
+        pool.append(d)
     _POOL_CACHE[key] = (pool, files)
     return pool, files
 
@@ -631,6 +643,29 @@ def make_damaged_cases(ctx, pool, n_streams, kinds=None, modes=None):
             cases.append({'name': 'damaged-%d' % k, 'stream': stream, 'starts': starts, 'info_only': io_,
                           'continue_on_error': coe, 'filter': None, 'expect': exp, 'expect_err': exp_err,
                           'tags': tags, 'damage_kinds': dk, 'damaged': dmg, 'in_domain': False})
+    # a damaged message whose body holds a complete decodable message, LAST in the stream with nothing behind it, alone,
+    # and in the middle: skipping it means skipping its whole declared length, wherever it stands
+    nested = [d for d in pool if d.get('nested')]
+    plain = [d for d in small if not d.get('nested')]
+    for j, d in enumerate(nested):
+        for kind in [x for x in ('stop', 'undef-element', 'sec4-len-minus') if x in kinds]:
+            bad = damage(d['bytes'], kind, rng)
+            g1, g2 = rng.choice(plain)['bytes'], rng.choice(plain)['bytes']
+            for shape, msgs, dmg in (('last', [g1, bad], [False, True]), ('alone', [bad], [True]),
+                                     ('middle', [g1, bad, g2], [False, True, False])):
+                stream, starts, skinds = assemble(rng, msgs, trailing=(shape == 'middle' and j % 2 == 0), lead=(shape != 'alone'))
+                tags = ['damaged', 'damaged-body-holds-a-whole-message', 'nested-' + shape, 'damage:' + kind]
+                good = [m for m, b2 in zip(msgs, dmg) if not b2]
+                for io_, coe in (modes or [(False, True), (False, False), (True, True), (True, False)]):
+                    if io_:
+                        exp, exp_err = None, None
+                    elif coe:
+                        exp, exp_err = good, None
+                    else:
+                        exp, exp_err = msgs[:dmg.index(True)], 'lib'
+                    cases.append({'name': 'nested-%s-%d-%s' % (shape, j, kind), 'stream': stream, 'starts': starts, 'info_only': io_,
+                                  'continue_on_error': coe, 'filter': None, 'expect': exp, 'expect_err': exp_err,
+                                  'tags': tags, 'damage_kinds': [kind], 'damaged': dmg, 'in_domain': False})
     return cases
 
 
